@@ -14,8 +14,10 @@ from ..interval import Interp, INPUT_BOUND
 META = {
     'explanation': 'C10 (canonical-form clause for angles only): the value stored by SO2StateSpace::interpolate and the values '
                    'produced by SO2State::new / SO2State::normalise are shown to lie in [-pi, pi] and to be non-NaN for all '
-                   'finite inputs by interval abstract interpretation. Shortest-path, constant-speed, end-point and '
-                   'quaternion clauses are NOT decided.',
+                   'finite inputs by interval abstract interpretation. End points (t=0, t=1), affinity in t, a<->b symmetry and '
+                   'the unit norm of the linearly interpolated branch are decided on the normal forms of what interpolate stores '
+                   '(value numbering over polynomial normal forms with gating terms; real-number reading, rounding outside; '
+                   'undecided where not tracked). Distance-proportionality on SO(3) is NOT decided.',
     'assumptions': ['inputs finite, non-NaN, below %g in magnitude (including t)' % INPUT_BOUND,
                     'rem_euclid(x, m) lies in [0, m] (upper end attainable through rounding, per std docs)'],
 }
@@ -171,7 +173,12 @@ def _algebra(ctx):
     ra = RuleResult('C10.affine', 'vector and angle interpolation is affine in t')
     rw = RuleResult('C10.swap', 'interpolate(b, a, 1 - t) denotes the same configuration as interpolate(a, b, t)')
     ru = RuleResult('C10.unit', 'interpolated quaternions have unit norm for unit end points')
+    rv = RuleResult('C10.speed', 'the normal form of distance(from, interpolate(from, to, t)) evaluates to t * distance(from, to)')
     n = 0
+    dist = {}
+    for db in ctx.lib_bodies():
+        if db.impl_trait == SS and db.name == 'distance' and db.kind == 'AssocFn' and db.arg_count == 3:
+            dist[db.j.get('impl_adt')] = db
     M = 2 * math.pi
     for b in sorted(ctx.lib_bodies(), key=lambda x: x.path):
         if b.impl_trait != SS or b.name != 'interpolate' or b.kind != 'AssocFn' or b.arg_count != 5:
@@ -267,6 +274,9 @@ def _algebra(ctx):
             return None
         swapped = {k: subst(swap_params(v, pa, pb), flip) for k, v in outs_t.items()}
         same(outs_t, lambda path: swapped[path], 'interpolate(b, a, 1 - t) against interpolate(a, b, t)', 'C10.swap', rw, 0)
+        # ---- constant speed: the space's own distance composed with what interpolate stores
+        if b.j.get('impl_adt') in dist:
+            _speed(ctx, b, dist[b.j.get('impl_adt')], outs_t, tl, pa, pb, kind, rv)
         # ---- unit norm of an interpolated quaternion (unit end points)
         if kind == 'quat' and len(outs_t) == 4:
             _unit(ctx, b, outs_t, tl, ru)
@@ -293,7 +303,7 @@ def _algebra(ctx):
                                                loc=b.loc(0), ordinal=o))
     if n < 6:
         re_.violations.append(Violation('C10', 'C10.ends', 'oxmpl', 'floor', 'only %d interpolate functions found (floor 6)' % n))
-    return [re_, ra, rw, ru]
+    return [re_, ra, rw, ru, rv]
 
 
 def _second_difference(w, tl):
@@ -386,3 +396,64 @@ def _unit(ctx, b, outs, tl, ru):
     else:
         ru.inst('%s: undecided - squared norm reduces to 1 in %d of %d feasible cases (the others evaluate to 1 at all %d admissible points tried)' % (
             b.path, proved, len(cs), n_ok), ok=True, nontrivial=False)
+
+
+def _speed(ctx, b, db, outs, tl, pa, pb, kind, rv):
+    """d(from, interpolate(from, to, t)) against t * d(from, to): the two normal forms (the distance body composed with
+    what interpolate stores) are compared at admissible points (unit quaternions, t in [0, 1], also nearly parallel end
+    points).  There is no syntactic proof of this clause (it needs trigonometric identities): the rule can only report a
+    violation - the composed forms take different values, beyond 1e-4 - or leave the clause undecided."""
+    from ..symval import Poly, subst, fmt_poly
+    from ..symrules import analyze, opaque, Env, ev
+    res, _ = analyze(ctx, db)
+    D = res.get(('ret',))
+    if opaque(D):
+        rv.inst('%s: undecided - the distance is not tracked to a closed normal form' % b.path, ok=True, nontrivial=False)
+        return
+    # distance(from, out): parameter 2 of distance is `from` (interpolate's pa), parameter 3 is the interpolated state
+
+    def comp(a):
+        if a[0] == 'leaf' and a[1] == 3:
+            v = outs.get(a[2])
+            return v if v is not None else 'TOP'
+        if a[0] == 'leaf' and a[1] == 2:
+            return Poly.atom(('leaf', pa, a[2]))
+        return None
+
+    def plain(a):
+        if a[0] == 'leaf' and a[1] == 3:
+            return Poly.atom(('leaf', pb, a[2]))
+        if a[0] == 'leaf' and a[1] == 2:
+            return Poly.atom(('leaf', pa, a[2]))
+        return None
+    lhs = subst(D, comp)
+    full = subst(D, plain)
+    if lhs is None or full is None:
+        rv.inst('%s: undecided - composition not tracked' % b.path, ok=True, nontrivial=False)
+        return
+    bad = None
+    n_ok = 0
+    for seed in range(80):
+        env = Env(seed, special=seed % 5 == 4)
+        env.unit = kind == 'quat'
+        env.near = seed % 4 == 1
+        t = [0.5, 0.25, 0.9, 0.1, 0.75][seed % 5] if seed % 2 else env.rnd.uniform(0.05, 0.95)
+        env.vals[(tl, None)] = t
+        try:
+            l, f = ev(lhs, env), ev(full, env)
+        except (ValueError, ZeroDivisionError, OverflowError, TypeError):
+            continue
+        if l != l or f != f:
+            continue
+        n_ok += 1
+        if abs(l - t * f) > 1e-4 * max(1.0, abs(f)):
+            bad = (t, l, t * f)
+            break
+    if bad is not None:
+        rv.inst('%s: at t = %.3g the distance from `from` is %.9g, t * d(from, to) is %.9g' % ((b.path,) + bad), ok=False, site=b.loc(0))
+        rv.violations.append(Violation('C10', 'C10.speed', b.path, 'speed',
+                                       'the interpolated state is not at distance t * d(from, to) from `from`: composing the distance normal form '
+                                       'with what interpolate stores gives %.9g at t = %.3g where %.9g is required (not constant speed along the '
+                                       'shortest path)' % (bad[1], bad[0], bad[2]), loc=b.loc(0)))
+    else:
+        rv.inst('%s: undecided - no syntactic proof; the composed forms agree at all %d admissible points tried' % (b.path, n_ok), ok=True, nontrivial=False)
